@@ -46,8 +46,19 @@ CODES = {"ok": "COk", "err:-32601": "CMethodNotFound", "err:-32602": "CInvalidPa
 MODES = {"ok": "HOk", "none": "HNone", "panic": "HPanic"}
 
 
+STRS = []
+
+
 def coq_str(s):
-    return '"%s"' % s.replace('"', '""')
+    """strings go through a table defined once in the prelude (string literals are slow to elaborate inside big terms)"""
+    if s not in STRS:
+        STRS.append(s)
+    return "(s__ %d%%nat)" % STRS.index(s)
+
+
+def prelude():
+    lits = ['"%s"' % x.replace('"', '""') for x in STRS]
+    return PRELUDE + "Definition S__ : list string := [%s].\nDefinition s__ (k : nat) : string := nth k S__ \"\".\n" % "; ".join(lits)
 
 
 def coq_id(v):
@@ -148,7 +159,9 @@ def correspondence(ck, binpath, n, methods_file, corpus):
         if "msgs" in v:
             cases.append(v)
     terms = [case_to_coq(ck, c) for c in cases]
-    failing = ck.coq_failing("corr", terms, REQS, prelude=PRELUDE, per_shard=30)
+    ck.log("trace validation: %d cases from the server, evaluating the model" % len(cases))
+    failing = ck.coq_failing("corr", terms, REQS, prelude=prelude(), per_shard=20)
+    ck.log("trace validation done")
     for c in cases:
         ck.count_case(("corr", case_key(c["msgs"])), nontrivial=case_nontrivial(c["msgs"]))
     if failing:
@@ -170,12 +183,13 @@ def session_to_coq(v):
     msgs = []
     for i in v["pre_ids"]:
         if v["variant"].startswith("bad-initialize"):
-            msgs.append('MReq %d "initialize" false' % i)
+            msgs.append('MReq %d %s false' % (i, coq_str("initialize")))
         else:
-            msgs.append('MReq %d "textDocument/hover" true' % i)
-    msgs += ['MReq 1 "initialize" true', 'MNotif "initialized" None', 'MReq 2 "textDocument/hover" true',
-             'MReq 3 "textDocument/hover" false', 'MReq 4 "textDocument/hover" false', 'MReq 5 "no/such" true',
-             'MReq 6 "shutdown" false', 'MNotif "exit" None']
+            msgs.append('MReq %d %s true' % (i, coq_str("textDocument/hover")))
+    h = coq_str("textDocument/hover")
+    msgs += ['MReq 1 %s true' % coq_str("initialize"), 'MNotif %s None' % coq_str("initialized"), 'MReq 2 %s true' % h,
+             'MReq 3 %s false' % h, 'MReq 4 %s false' % h, 'MReq 5 %s true' % coq_str("no/such"),
+             'MReq 6 %s false' % coq_str("shutdown"), 'MNotif %s None' % coq_str("exit")]
     obs = []
     for ids, classes in v["obs"].items():
         obs.append("(%d, %s)" % (int(ids), coq_list([CODES.get(c, "CInternal") for c in classes])))
@@ -189,6 +203,7 @@ def stdio(ck, binpath, ls_bin):
         ck.tie_broken("harness c24 stdio failed (rc=%s)" % rc, err[-3000:])
         return
     sessions = [json.loads(l) for l in out.splitlines() if l.strip()]
+    ck.log("stdio: %d handshake sessions" % len(sessions))
     ck.cov["distribution"]["stdio_sessions"] = [s["variant"] for s in sessions]
     # oracle: every request id exactly one response, clean exit after shutdown/exit
     for s in sessions:
@@ -216,7 +231,7 @@ def stdio(ck, binpath, ls_bin):
         ck.count_case(("stdio", s["variant"]), nontrivial=True)
     terms = [session_to_coq(s) for s in sessions]
     failing = ck.coq_failing("stdio", terms, REQS, check_fn="check_session", case_type="list msg * list (rid * list rclass)",
-                             prelude=PRELUDE, per_shard=100)
+                             prelude=prelude(), per_shard=100)
     if failing:
         for i in failing:
             ck.tie_broken("model/implementation disagreement on a handshake session over stdio (%s)" % sessions[i]["variant"],
@@ -231,6 +246,7 @@ def search(ck, binpath, n, methods_file, corpus):
     if corpus:
         args += ["--corpus", corpus]
     rc, out, err = ck.run_bin(binpath, args, timeout=3000)
+    ck.log("search done")
     if rc != 0:
         ck.tie_broken("harness c24 search failed (rc=%s)" % rc, err[-3000:])   # partial output is still used below
     for l in out.splitlines():
@@ -294,11 +310,12 @@ def main(argv):
     if ok:
         D.gate_files(ck, ["Base/LTS.v", "Gen/C24_Dispatch.v"])
         ck.coq_gates(["C24"], THEOREMS, "EV.C24.Props")
+        ck.log("gates done")
     # 4. trace validation
     corr_ok = ok or os.path.exists(os.path.join(COQ, "theories/C24/Corr.vo"))
     if bins and table:
         if corr_ok:
-            correspondence(ck, bins["c24"], ck.scale(170, 1500), methods_file, corpus)
+            correspondence(ck, bins["c24"], ck.scale(150, 1500), methods_file, corpus)
             if ls_bin:
                 stdio(ck, bins["c24"], ls_bin)
         if ck.broken:
@@ -320,4 +337,4 @@ def main(argv):
              "outcome modes, id equalities)",
         assumptions=["sessions respect the LSP life-cycle (the theorem's lifecycle_ok): no request after shutdown, `initialized` follows the initialize response",
                      "trace validation and search are sampled (they validate the model and look for replays; the theorems carry the all-sessions / all-schedules claim)",
-                     "a missing response is detected by a timeout (1.5 s after the probe was answered)"])
+                     "a missing response is one that has not arrived by the end of the run (every response is credited to the request it answers, however late; final grace period 10 s)"])
